@@ -326,8 +326,9 @@ func (w *world) hangVerdict(what, marker string) {
 	if strings.HasPrefix(where, "github.com/safing/portbase/") {
 		why := fmt.Sprintf("%s hangs in %s", what, where)
 		path := w.writeJournal(why)
-		fmt.Fprintf(os.Stderr, "HANG (violation of C12: the server must never hang): %s\njournal (replay): %s\n--- goroutine of the blocked call ---\n%s\n--- all goroutines inside portbase/api ---\n%s\n",
-			b.String(), path, block, goroutinesMatching(dump, "github.com/safing/portbase/api."))
+		// The driver shows the end of the output of a process that died: details first, summary last.
+		fmt.Fprintf(os.Stderr, "--- goroutines waiting for a lock inside portbase ---\n%s\n\n--- goroutine of the blocked call ---\n%s\n\nHANG (violation of C12: credentials \"never crash or hang the server\"): %s\njournal (replay with ./check C12 --replay <file>): %s\n%s\n",
+			lockWaiters(dump), block, b.String(), path, strings.Repeat("(end of the hang report; the process ends here because the blocked resource would only make every further case time out)\n", 5))
 		stats.Class("hang_verdict_violation")
 		stats.Flush(1)
 		// The lock / resource stays taken: every further case would only time out.
@@ -341,12 +342,17 @@ func (w *world) hangVerdict(what, marker string) {
 	select {}
 }
 
-func goroutinesMatching(dump, needle string) string {
+// lockWaiters: the goroutines that wait for a mutex with a portbase frame on their stack.
+func lockWaiters(dump string) string {
 	var sel []string
 	for _, g := range strings.Split(dump, "\n\n") {
-		if strings.Contains(g, needle) {
+		head, _, _ := strings.Cut(g, "\n")
+		if strings.Contains(head, "Mutex") && strings.Contains(g, "github.com/safing/portbase/") {
 			sel = append(sel, g)
 		}
+	}
+	if len(sel) > 6 {
+		sel = append(sel[:6], fmt.Sprintf("(and %d more)", len(sel)-6))
 	}
 	return strings.Join(sel, "\n\n")
 }
